@@ -310,7 +310,9 @@ theorem aux2_refit (q : Q K) (cur : Nat → Aabb3 K) (margin : K) (r : Q K × Na
     obtain ⟨x, hx, _, hp, _⟩ := e.node 0 r' hr'
     rw [hp]; exact a.rootPar x hx
   · intro n hn
-    rw [refitLoop_dirty_nil cur margin _ _ _ _ _ h] at hn
+    obtain ⟨r0, h0, rfl⟩ := refit_eq q cur margin r h
+    simp only [syncRootAabb_dirtyNodes] at hn
+    rw [refitLoop_dirty_nil cur margin _ _ _ _ _ h0] at hn
     cases hn
 
 theorem aux2_empty : Aux2 (Q.empty : Q K) := ⟨fun r hr => by simp [Q.empty] at hr, fun n hn => by simp [Q.empty] at hn⟩
